@@ -246,8 +246,25 @@ func (h *vsH) line(ev string, st vsStep, ok, parked bool, err error) {
 	h.emit(m)
 }
 
+// dead driver (etcd gone, store cannot be built): the whole run is void
 func (h *vsH) fatal(format string, a ...any) {
 	h.t.Fatalf("not replayed: "+format, a...)
+}
+
+// vsAbandon ends the current schedule only: an expected arrival / completion did not come within the
+// real-time timeout, i.e. the code no longer takes the step the schedule wanted. The schedule is
+// recorded as "not replayed" (line Abandoned, no Observe line, so nothing is evaluated on it).
+type vsAbandon struct{ why string }
+
+func (h *vsH) abandon(format string, a ...any) {
+	panic(vsAbandon{why: fmt.Sprintf(format, a...)})
+}
+
+// skip records a scheduled step the code is not in a position to take (the model and the code disagree
+// about what is in flight). Deterministic, no waiting; the schedule goes on and is still observed.
+func (h *vsH) skip(st vsStep, why string) bool {
+	h.line("Skip", st, false, false, fmt.Errorf("%s", why))
+	return false
 }
 
 // runOp starts a broker operation in its own goroutine; its completion comes back through arrivals.
@@ -260,10 +277,13 @@ func (h *vsH) runOp(name string, f func() error) {
 
 func (h *vsH) hasDone(name string) bool { return len(h.opDone[name]) > 0 }
 
-func (h *vsH) step(st vsStep) {
+func (h *vsH) step(st vsStep) bool {
 	ctx := context.Background()
 	switch st.A {
 	case "CT", "DT":
+		if h.isParked(vsGateCP, st.B) {
+			return h.skip(st, "a CreatePartitions of "+st.B+" is still parked (one operation per broker)")
+		}
 		s := h.stores[st.B]
 		if st.A == "CT" {
 			h.runOp(st.B, func() error {
@@ -274,15 +294,18 @@ func (h *vsH) step(st vsStep) {
 			h.runOp(st.B, func() error { return s.DeleteTopic(ctx, st.T) })
 		}
 		if !h.pump(vsLong, func() bool { return h.hasDone(st.B) }) {
-			h.fatal("%s(%s,%s) did not return", st.A, st.B, st.T)
+			h.abandon("%s(%s,%s) did not return", st.A, st.B, st.T)
 		}
 		err, _ := h.takeDone(st.B)
 		h.line(st.A, st, err == nil, false, err)
 	case "CPMutate":
+		if h.isParked(vsGateCP, st.B) {
+			return h.skip(st, "a CreatePartitions of "+st.B+" is still parked (one operation per broker)")
+		}
 		s := h.stores[st.B]
 		h.runOp(st.B, func() error { return s.CreatePartitions(ctx, st.T, int32(st.N)) })
 		if !h.pump(vsLong, func() bool { return h.hasDone(st.B) || h.isParked(vsGateCP, st.B) }) {
-			h.fatal("CreatePartitions(%s,%s,%d) neither returned nor reached its gate", st.B, st.T, st.N)
+			h.abandon("CreatePartitions(%s,%s,%d) neither returned nor reached its gate", st.B, st.T, st.N)
 		}
 		if err, done := h.takeDone(st.B); done {
 			h.line("CPMutate", st, err == nil, false, err)
@@ -292,13 +315,12 @@ func (h *vsH) step(st vsStep) {
 		}
 	case "CPPersist":
 		if !h.isParked(vsGateCP, st.B) {
-			h.line("Skip", st, false, false, fmt.Errorf("no CreatePartitions parked on %s", st.B))
-			return
+			return h.skip(st, "no CreatePartitions parked on "+st.B)
 		}
 		st.T, st.N = h.cpArgs[st.B].T, h.cpArgs[st.B].N // log which growth this persist belongs to
 		h.release(vsGateCP, st.B)
 		if !h.pump(vsLong, func() bool { return h.hasDone(st.B) || h.isParked(vsGateCP, st.B) }) {
-			h.fatal("CreatePartitions on %s neither returned nor parked again", st.B)
+			h.abandon("CreatePartitions on %s neither returned nor parked again", st.B)
 		}
 		if err, done := h.takeDone(st.B); done {
 			// a refresh that was waiting for persistMu runs now: let it finish so the log order is deterministic
@@ -306,7 +328,7 @@ func (h *vsH) step(st vsStep) {
 			if nb > 0 {
 				want := h.blockedAt[st.B] + nb
 				if !h.pump(vsLong, func() bool { return h.refDone[st.B] >= want }) {
-					h.fatal("blocked refresh of %s did not finish", st.B)
+					h.abandon("blocked refresh of %s did not finish", st.B)
 				}
 				h.blocked[st.B] = 0
 				h.refDone[st.B] -= nb // counted below, one logged Refresh each
@@ -321,11 +343,13 @@ func (h *vsH) step(st vsStep) {
 		}
 	case "Refresh":
 		if h.pend(st.B) <= 0 {
-			h.line("Skip", st, false, false, fmt.Errorf("no undelivered watch event for %s", st.B))
-			return
+			return h.skip(st, "no undelivered watch event for "+st.B)
+		}
+		if h.blocked[st.B] > 0 {
+			return h.skip(st, "the watch goroutine of "+st.B+" is waiting for persistMu")
 		}
 		if !h.pump(vsLong, func() bool { return h.isParked(vsGateRefresh, st.B) }) {
-			h.fatal("watch event for %s never reached refreshSnapshot", st.B)
+			h.abandon("watch event for %s never reached refreshSnapshot", st.B)
 		}
 		before := h.refDone[st.B]
 		h.release(vsGateRefresh, st.B)
@@ -342,15 +366,14 @@ func (h *vsH) step(st vsStep) {
 			h.blocked[st.B]++
 			h.line("RefreshBlocked", st, true, true, nil)
 		} else {
-			h.fatal("refreshSnapshot of %s did not finish", st.B)
+			h.abandon("refreshSnapshot of %s did not finish", st.B)
 		}
 	case "CrdApply":
 		h.crd[st.T] = st.N
 		h.line("CrdApply", st, true, false, nil)
 	case "OpStart":
 		if h.opArmed.Load() {
-			h.line("Skip", st, false, false, fmt.Errorf("operator publish already in flight"))
-			return
+			return h.skip(st, "operator publish already in flight")
 		}
 		replicas := int32(1)
 		cluster := &kafscalev1alpha1.KafscaleCluster{ObjectMeta: metav1.ObjectMeta{Name: "verif", Namespace: "default"}}
@@ -374,7 +397,7 @@ func (h *vsH) step(st vsStep) {
 		eps := h.endpoints
 		h.runOp("op", func() error { return PublishMetadataSnapshot(ctx, eps, meta) })
 		if !h.pump(vsLong, func() bool { return h.hasDone("op") || h.isParked(vsGateOp, "op") }) {
-			h.fatal("PublishMetadataSnapshot neither returned nor reached its gate")
+			h.abandon("PublishMetadataSnapshot neither returned nor reached its gate")
 		}
 		if err, done := h.takeDone("op"); done {
 			h.opArmed.Store(false)
@@ -384,12 +407,11 @@ func (h *vsH) step(st vsStep) {
 		}
 	case "OpCas":
 		if !h.isParked(vsGateOp, "op") {
-			h.line("Skip", st, false, false, fmt.Errorf("no operator publish parked"))
-			return
+			return h.skip(st, "no operator publish parked")
 		}
 		h.release(vsGateOp, "op")
 		if !h.pump(vsLong, func() bool { return h.hasDone("op") || h.isParked(vsGateOp, "op") }) {
-			h.fatal("PublishMetadataSnapshot neither returned nor parked again")
+			h.abandon("PublishMetadataSnapshot neither returned nor parked again")
 		}
 		if err, done := h.takeDone("op"); done {
 			h.opArmed.Store(false)
@@ -400,6 +422,7 @@ func (h *vsH) step(st vsStep) {
 	default:
 		h.fatal("unknown step %q", st.A)
 	}
+	return true
 }
 
 // drain completes what the schedule left in flight, in a fixed order, until nothing is pending.
@@ -408,25 +431,39 @@ func (h *vsH) drain() {
 		progressed := false
 		for _, b := range h.sched.Brokers {
 			for h.isParked(vsGateCP, b) {
-				h.step(vsStep{A: "CPPersist", B: b})
+				if !h.step(vsStep{A: "CPPersist", B: b}) {
+					break
+				}
 				progressed = true
 			}
 		}
 		for h.isParked(vsGateOp, "op") {
-			h.step(vsStep{A: "OpCas"})
+			if !h.step(vsStep{A: "OpCas"}) {
+				break
+			}
 			progressed = true
 		}
 		for _, b := range h.sched.Brokers {
 			for h.pend(b) > 0 {
-				h.step(vsStep{A: "Refresh", B: b})
+				if !h.step(vsStep{A: "Refresh", B: b}) {
+					break
+				}
 				progressed = true
 			}
 		}
 		if !progressed {
+			for _, b := range h.sched.Brokers {
+				if h.pend(b) > 0 || h.blocked[b] > 0 || h.isParked(vsGateCP, b) {
+					h.abandon("quiescence not reached: %s still has work that cannot be completed", b)
+				}
+			}
+			if h.opArmed.Load() {
+				h.abandon("quiescence not reached: operator publish still in flight")
+			}
 			return
 		}
 	}
-	h.fatal("drain did not terminate")
+	h.abandon("drain did not terminate")
 }
 
 func (h *vsH) shutdown() {
@@ -533,7 +570,7 @@ func TestVerifSnapshotReplay(t *testing.T) {
 
 	sc := bufio.NewScanner(f)
 	sc.Buffer(make([]byte, 1<<20), 1<<26)
-	n := 0
+	n, abandoned := 0, 0
 	for sc.Scan() {
 		var s vsSched
 		if err := json.Unmarshal(sc.Bytes(), &s); err != nil {
@@ -543,17 +580,29 @@ func TestVerifSnapshotReplay(t *testing.T) {
 		sort.Strings(s.Topics)
 		h := vsStart(t, endpoints, admin, s, emit)
 		emit(map[string]any{"ev": "Reset", "sched": n, "brokers": s.Brokers, "topics": s.Topics, "st": h.state()})
-		for _, st := range s.Steps {
-			h.step(st)
-		}
-		h.drain()
-		// quiescent: nothing parked, no undelivered event; observe what every party answers now
-		h.line("Observe", vsStep{}, true, false, nil)
+		func() {
+			defer func() {
+				if r := recover(); r != nil {
+					ab, ok := r.(vsAbandon)
+					if !ok {
+						panic(r)
+					}
+					abandoned++
+					h.line("Abandoned", vsStep{}, false, false, fmt.Errorf("%s", ab.why))
+				}
+			}()
+			for _, st := range s.Steps {
+				h.step(st)
+			}
+			h.drain()
+			// quiescent: nothing parked, no undelivered event; observe what every party answers now
+			h.line("Observe", vsStep{}, true, false, nil)
+		}()
 		h.shutdown()
 		n++
 	}
 	hits := map[string]int64{}
 	vsHits.Range(func(k, v any) bool { hits[k.(string)] = atomic.LoadInt64(v.(*int64)); return true })
-	emit(map[string]any{"ev": "Summary", "hits": hits, "schedules": n})
+	emit(map[string]any{"ev": "Summary", "hits": hits, "schedules": n, "abandoned": abandoned})
 	t.Logf("replayed %d schedules", n)
 }
